@@ -945,17 +945,24 @@ func (p *proxyObject) __isCompatibleDescriptor(extensible bool, desc *PropertyDe
 			return true
 		}
 		if desc.IsAccessor() && current.accessor {
-			if !current.configurable {
-				if desc.Setter != nil && desc.Setter.SameAs(current.setterFunc) {
-					return false
-				}
-				if desc.Getter != nil && desc.Getter.SameAs(current.getterFunc) {
-					return false
-				}
+			if desc.Setter != nil && !sameAccessorFunc(desc.Setter, current.setterFunc) {
+				return false
+			}
+			if desc.Getter != nil && !sameAccessorFunc(desc.Getter, current.getterFunc) {
+				return false
 			}
 		}
 	}
 	return true
+}
+
+// sameAccessorFunc is SameValue(v, f) where f is the [[Get]] or [[Set]] of an existing accessor property
+// (nil means undefined).
+func sameAccessorFunc(v Value, f *Object) bool {
+	if f == nil {
+		return v == _undefined
+	}
+	return v.SameAs(f)
 }
 
 func (p *proxyObject) __sameValue(val1, val2 Value) bool {
